@@ -1,6 +1,202 @@
-From Coq Require Import ZArith List Bool String Ascii.
-From PAFC07 Require Import Gen Model Proofs.
+(* C07 property theorems: statements only, each closed by `exact`.
+   ps = Python str(float) (oracle), md5 = hashlib.md5 (hypothesis: injective). *)
+From Coq Require Import ZArith QArith List Bool String Ascii.
+From Coq Require Import Floats.PrimFloat.
+From PAFCommon Require Import PyFloat PyNum.
+From PAFC07 Require Import Gen Model Proofs1 Proofs2 Proofs3 Proofs4 Refute.
+Import ListNotations.
 Open Scope string_scope.
-Theorem C07_id_skipped : visible "id" = false.
-Proof. exact id_not_visible. Qed.
-Print Assumptions C07_id_skipped.
+Open Scope list_scope.
+
+(* ---------------- stable: the identifier depends only on what `strip` keeps ---------------- *)
+(* everything below a skipped key (ids, labels, private state), every attribute that is not an identifier
+   field / constructor argument, is invisible to the description and to the exceptions of the walk *)
+Theorem C07_stable : forall (ps : float -> string) (o o' : obj),
+  strip o = strip o' -> tokens ps o = tokens ps o' /\ raises o = raises o'.
+Proof. exact stable_obj. Qed.
+
+Theorem C07_stable_identifier : forall (md5 : string -> string) (ps : float -> string) (o o' : obj),
+  strip o = strip o' -> ident md5 ps o = ident md5 ps o'.
+Proof. exact stable_ident. Qed.
+
+(* compositions that differ only in ids (creation order, copies) and labels have the same identifier *)
+Theorem C07_stable_ids_labels : forall (md5 : string -> string) (ps : float -> string) (s s' m m' : node) (tag : option string),
+  erase s = erase s' -> erase m = erase m' -> ident md5 ps (fit_obj s m tag) = ident md5 ps (fit_obj s' m' tag).
+Proof. exact stable_fit. Qed.
+
+(* SearchOutput.id (tag always passed, possibly None) describes the fit exactly as AbstractPaths does *)
+Theorem C07_output_id_same : forall (ps : float -> string) (s m : node) (tag : option string),
+  tokens ps (fit_obj_output s m tag) = tokens ps (fit_obj s m tag).
+Proof. exact fit_output_same. Qed.
+
+(* ---------------- reload from the fit's own files ---------------- *)
+Theorem C07_roundtrip_partial : forall (md5 : string -> string) (ps : float -> string) (s m : node) (tag : option string),
+  reloadable s = true -> reloadable m = true ->
+  exists s' m', reload s = Some s' /\ reload m = Some m' /\
+                ident md5 ps (fit_obj_output s' m' tag) = ident md5 ps (fit_obj s m tag).
+Proof. exact roundtrip_partial. Qed.
+
+(* the full statement (every composition reloads to the same description) does not hold *)
+Theorem C07_roundtrip_refuted :
+  ~ (forall t, exists t', reload t = Some t' /\ forall ps, tokens ps (reify t') = tokens ps (reify t)).
+Proof. exact roundtrip_refuted. Qed.
+
+Theorem C07_roundtrip_arith_refuted : changes_on_reload arith_model.
+Proof. exact reload_changes_arith. Qed.
+
+Theorem C07_roundtrip_item_number_refuted : changes_on_reload list_coll.
+Proof. exact reload_changes_item_number. Qed.
+
+Theorem C07_roundtrip_fixed_model_refuted : changes_on_reload fixed_inside.
+Proof. exact reload_changes_fixed_model. Qed.
+
+Theorem C07_roundtrip_unreadable_refuted :
+  reload log_gaussian_model = None /\ reload negated_model = None /\ reload drawer = None.
+Proof. exact reload_fails. Qed.
+
+(* ---------------- sensitive: local changes are visible in the joined description ---------------- *)
+(* in any context (any object around it, through visible selected keys and sequences), a change whose own
+   terminated description changes, changes the joined description of the whole *)
+Theorem C07_sensitive_context : forall (ps : float -> string) (C : obj -> obj) (x y : obj),
+  frame C -> tokens ps (C x) <> [] -> tokens ps (C y) <> [] ->
+  cat_t (tokens ps x) <> cat_t (tokens ps y) -> joined ps (C x) <> joined ps (C y).
+Proof. exact frame_sensitive. Qed.
+
+Theorem C07_sensitive_token : forall (ps : float -> string) (C : obj -> obj) (x y : obj) (pre post : list string) (a b : string),
+  frame C -> tokens ps x = pre ++ a :: post -> tokens ps y = pre ++ b :: post -> a <> b ->
+  joined ps (C x) <> joined ps (C y).
+Proof. exact sensitive_token. Qed.
+
+Theorem C07_sensitive_head : forall (ps : float -> string) (C : obj -> obj) (x y : obj) (a b : string) (r r' : list string),
+  frame C -> tokens ps x = a :: r -> tokens ps y = b :: r' -> nodot a = true -> nodot b = true -> a <> b ->
+  joined ps (C x) <> joined ps (C y).
+Proof. exact sensitive_head. Qed.
+
+Theorem C07_sensitive_appears : forall (ps : float -> string) (C : obj -> obj) (x y : obj) (b : string) (r : list string),
+  frame C -> tokens ps x = [] -> tokens ps y = b :: r -> tokens ps (C x) <> [] ->
+  joined ps (C x) <> joined ps (C y).
+Proof. exact sensitive_appears. Qed.
+
+(* the same for fits: a change anywhere inside the model composition ... *)
+Theorem C07_sensitive_model : forall (ps : float -> string) c fs sattrs tag (NC : node -> node) (n n' : node),
+  nframe NC -> cat_t (tokens ps (reify n)) <> cat_t (tokens ps (reify n')) ->
+  joined ps (fit_obj (NSearch c fs sattrs) (NC n) tag) <> joined ps (fit_obj (NSearch c fs sattrs) (NC n') tag).
+Proof. exact sensitive_model. Qed.
+
+(* ... of one identifying search setting, of the search class, of the unique tag *)
+Theorem C07_sensitive_search_setting : forall (ps : float -> string) c fs a1 k a2 m tag v v',
+  visible k = true -> mem k fs = true -> ~ In k (map fst a1) ->
+  cat_t (tokens ps (reify v)) <> cat_t (tokens ps (reify v')) ->
+  joined ps (fit_obj (NSearch c fs (a1 ++ (k, v) :: a2)) m tag) <> joined ps (fit_obj (NSearch c fs (a1 ++ (k, v') :: a2)) m tag).
+Proof. exact sensitive_search. Qed.
+
+Theorem C07_sensitive_search_class : forall (ps : float -> string) c c' fs fs' a a' m m' tag tag',
+  nodot c = true -> nodot c' = true -> c <> c' ->
+  joined ps (fit_obj (NSearch c fs a) m tag) <> joined ps (fit_obj (NSearch c' fs' a') m' tag').
+Proof. exact sensitive_search_class. Qed.
+
+Theorem C07_sensitive_tag : forall (ps : float -> string) c fs sattrs m t t', t <> t' ->
+  joined ps (fit_obj (NSearch c fs sattrs) m (Some t)) <> joined ps (fit_obj (NSearch c fs sattrs) m (Some t')).
+Proof. exact sensitive_tag. Qed.
+
+Theorem C07_sensitive_tag_presence : forall (ps : float -> string) c fs sattrs m t,
+  joined ps (fit_obj (NSearch c fs sattrs) m None) <> joined ps (fit_obj (NSearch c fs sattrs) m (Some t)).
+Proof. exact sensitive_tag_presence. Qed.
+
+(* which local changes change their own description (to be used with the three theorems above) *)
+Theorem C07_leaf_fixed_value : forall (ps : float -> string) a b, float_token ps a <> float_token ps b ->
+  cat_t (tokens ps (reify (NFloat a))) <> cat_t (tokens ps (reify (NFloat b))).
+Proof. exact leaf_float. Qed.
+
+Theorem C07_leaf_int : forall (ps : float -> string) a b, a <> b ->
+  cat_t (tokens ps (reify (NInt a))) <> cat_t (tokens ps (reify (NInt b))).
+Proof. exact leaf_int. Qed.
+
+Theorem C07_leaf_bool : forall (ps : float -> string) a b, a <> b ->
+  cat_t (tokens ps (reify (NBool a))) <> cat_t (tokens ps (reify (NBool b))).
+Proof. exact leaf_bool. Qed.
+
+Theorem C07_leaf_str : forall (ps : float -> string) a b, a <> b ->
+  cat_t (tokens ps (reify (NStr a))) <> cat_t (tokens ps (reify (NStr b))).
+Proof. exact leaf_str. Qed.
+
+Theorem C07_leaf_prior_family : forall (ps : float -> string) pid pid' fam fam' lo hi m s lo' hi' m' s', fam <> fam' ->
+  cat_t (tokens ps (reify (NPrior pid fam lo hi m s))) <> cat_t (tokens ps (reify (NPrior pid' fam' lo' hi' m' s'))).
+Proof. exact leaf_prior_family. Qed.
+
+Theorem C07_leaf_prior_lower : forall (ps : float -> string) pid pid' fam lo lo' hi m s, float_token ps lo <> float_token ps lo' ->
+  cat_t (tokens ps (reify (NPrior pid fam lo hi m s))) <> cat_t (tokens ps (reify (NPrior pid' fam lo' hi m s))).
+Proof. exact leaf_prior_lower. Qed.
+
+Theorem C07_leaf_prior_upper : forall (ps : float -> string) pid pid' fam lo hi hi' m s, float_token ps hi <> float_token ps hi' ->
+  cat_t (tokens ps (reify (NPrior pid fam lo hi m s))) <> cat_t (tokens ps (reify (NPrior pid' fam lo hi' m s))).
+Proof. exact leaf_prior_upper. Qed.
+
+Theorem C07_leaf_prior_mean : forall (ps : float -> string) pid pid' fam lo hi m m' s,
+  fam_has_ms fam = true -> float_token ps m <> float_token ps m' ->
+  cat_t (tokens ps (reify (NPrior pid fam lo hi m s))) <> cat_t (tokens ps (reify (NPrior pid' fam lo hi m' s))).
+Proof. exact leaf_prior_mean. Qed.
+
+Theorem C07_leaf_prior_sigma : forall (ps : float -> string) pid pid' fam lo hi m s s',
+  fam_has_ms fam = true -> float_token ps s <> float_token ps s' ->
+  cat_t (tokens ps (reify (NPrior pid fam lo hi m s))) <> cat_t (tokens ps (reify (NPrior pid' fam lo hi m s'))).
+Proof. exact leaf_prior_sigma. Qed.
+
+Theorem C07_leaf_model_class : forall (ps : float -> string) mid mid' lbl lbl' cls cls' cargs cargs' attrs, cls <> cls' ->
+  cat_t (tokens ps (reify (NModel mid lbl cls cargs attrs))) <> cat_t (tokens ps (reify (NModel mid' lbl' cls' cargs' attrs))).
+Proof. exact leaf_model_class. Qed.
+
+Theorem C07_leaf_head : forall (ps : float -> string) n n' a b r r',
+  tokens ps (reify n) = a :: r -> tokens ps (reify n') = b :: r' -> nodot a = true -> nodot b = true -> a <> b ->
+  cat_t (tokens ps (reify n)) <> cat_t (tokens ps (reify n')).
+Proof. exact leaf_head. Qed.
+
+Theorem C07_leaf_none_to_value : forall (ps : float -> string) n b r, tokens ps (reify n) = b :: r ->
+  cat_t (tokens ps (reify NNone)) <> cat_t (tokens ps (reify n)).
+Proof. exact leaf_none_to_value. Qed.
+
+(* fixed values: tokens differ when the roundings differ (repr injective), and in exact arithmetic the generated
+   formula separates values more than RESOLUTION apart and identifies values within RESOLUTION/2 of a grid point *)
+Theorem C07_float_token_differs : forall (ps : float -> string),
+  (forall x y, ps x = ps y -> fbits_eqb x y = true) ->
+  forall a b, fbits_eqb (round8 a) (round8 b) = false -> float_token ps a <> float_token ps b.
+Proof. exact float_token_differs. Qed.
+
+Theorem C07_rounding_separates : forall a b : Q,
+  a + resolution_Q < b -> round8_Q resolution_Q a < round8_Q resolution_Q b.
+Proof. exact rounding_separates. Qed.
+
+Theorem C07_rounding_grid : forall (a : Q) (k : Z),
+  inject_Z k * resolution_Q - resolution_Q * (1 # 2) < a -> a < inject_Z k * resolution_Q + resolution_Q * (1 # 2) ->
+  round8_Q resolution_Q a == resolution_Q * inject_Z k.
+Proof. exact rounding_grid. Qed.
+
+(* ---------------- the full sensitivity statement does not hold ---------------- *)
+(* which places share a parameter is invisible *)
+Theorem C07_sensitive_sharing_refuted :
+  ~ (forall ps t t', tokens ps (reify t) = tokens ps (reify t') -> sharing_pattern t = sharing_pattern t').
+Proof. exact sharing_refuted. Qed.
+
+(* names of the caller's variables are visible *)
+Theorem C07_stable_names_refuted :
+  ~ (forall ps mid c ln rn ln' rn' l r,
+       tokens ps (reify (NBinop mid c ln rn l r)) = tokens ps (reify (NBinop mid c ln' rn' l r))).
+Proof. exact names_refuted. Qed.
+
+(* different compositions with one joined description (no end markers; separator not escaped) *)
+Theorem C07_sensitive_injective_refuted :
+  ~ (forall ps s m m' tag, joined ps (fit_obj s m tag) = joined ps (fit_obj s m' tag) -> erase m = erase m').
+Proof. exact injective_refuted. Qed.
+
+Theorem C07_sensitive_dot_join_refuted :
+  (forall ps, tokens ps (reify dot_a) <> tokens ps (reify dot_b)) /\
+  forall ps, joined ps (fit_obj emcee dot_a None) = joined ps (fit_obj emcee dot_b None).
+Proof. exact dot_join_witness. Qed.
+
+Print Assumptions C07_stable.
+Print Assumptions C07_stable_ids_labels.
+Print Assumptions C07_roundtrip_partial.
+Print Assumptions C07_sensitive_context.
+Print Assumptions C07_sensitive_model.
+Print Assumptions C07_rounding_separates.
+Print Assumptions C07_sensitive_sharing_refuted.
